@@ -884,6 +884,12 @@ theorem index_switch_tie :
   refine ⟨by simp [generatedSw, decodeSw, C05.persistSwitchCond], ?_⟩
   decide
 
+/-- the configured page size (`wal.page-size`, NewQueue's argument) is looked at by NewQueue only (it
+creates the data factory with it, `meta_layout_tie`): Put's size limit and alloc's roll-over use the
+constant (`guards_tie`), so the model has no page-size parameter. The harness opens and reopens
+with different sizes. -/
+theorem page_size_config_tie : C05.pageSizeUsers = ["NewQueue"] := by decide
+
 theorem currentSw_ok (P : Nat) : SwOK P currentSw := by
   intro ipg idx slot _ hne
   simp [currentSw, hne]
